@@ -1492,8 +1492,163 @@ def run_sbulk(scn, only=None):
     return out
 
 
+# ---- one application task making SEQUENTIAL calls; earlier, already failed calls still have a strike pending -----
+
+def gen_seq(rng):
+    n = rng.choice([2, 2, 3, 4])
+    calls = []
+    for i in range(n):
+        last = i == n - 1
+        c = gen_call_common(rng, i, ['rst', 'bad-status', 'http-503', 'no-status'], 0.0 if last else 0.8)
+        c['status'] = 0 if last else c['status']
+        if c['strike']:
+            c['timeout'] = rng.choice([1.0, 2.0, 3.0])          # its deadline timer is still armed when it fails
+        else:
+            c['timeout'] = rng.choice([None, 1000.0])
+        c['frames'] = client_strand(rng, c)
+        c['strand'] = place_strike(rng, c, c['frames'])
+        c['catch_inside'] = rng.random() < 0.7                  # the app handles the failure inside the async-with
+        c['nest'] = rng.random() < 0.6                          # ... and makes the following calls from in there
+        # virtual time that passes before this call is answered (the earlier calls' timers fire in it)
+        c['gap'] = rng.choice([0, 0, 0, 0.5]) if c['strike'] else rng.choice([0, 1.5, 5.0, 5.0])
+        calls.append(c)
+    return {'end': 'seq', 'calls': calls}
+
+
+async def seq_app(channel, calls, idxs, rr, k=0):
+    """call idxs[k], then the rest: after it -- or, when its failure is handled inside its own async-with and the
+    spec says `nest`, from inside that handler (a fallback call made while the failed call is still open)"""
+    from grpclib.exceptions import StreamTerminatedError, GRPCError
+    if k >= len(idxs):
+        return
+    nested = False
+    for i in idxs[k:k + 1]:
+        spec, rec = calls[i], rr[i]
+        card = CARDS[spec['card']]
+        msgs = [bytes.fromhex(h) for h in spec['req']]
+        st = None
+        try:
+            async with channel.request(spec['path'], card, bytes, bytes, timeout=spec.get('timeout'),
+                                       metadata=[tuple(x) for x in spec['md']]) as st:
+                try:
+                    if card.client_streaming:
+                        if not msgs:
+                            await st.send_request(end=True)
+                        for j, m in enumerate(msgs):
+                            await st.send_message(m, end=(j == len(msgs) - 1))
+                    else:
+                        await st.send_message(msgs[0], end=True)
+                    await st.recv_initial_metadata()
+                    rec['im'] = items(st.initial_metadata)
+                    while True:
+                        m = await st.recv_message()
+                        if m is None:
+                            break
+                        rec['msgs'].append(m.hex())
+                        if not card.server_streaming:
+                            break
+                    await st.recv_trailing_metadata()
+                except (StreamTerminatedError, GRPCError) as e:
+                    if not spec.get('catch_inside'):
+                        raise
+                    rec['exc'] = exc_name(e)                  # handled by the application; the block ends normally
+                    if spec.get('nest'):
+                        nested = True
+                        await seq_app(channel, calls, idxs, rr, k + 1)
+        except BaseException as e:                              # noqa
+            if rec['exc'] == 'ok':
+                rec['exc'] = exc_name(e)
+        finally:
+            if st is not None:
+                if rec['im'] is None and st.initial_metadata is not None:
+                    rec['im'] = items(st.initial_metadata)
+                rec['tm'] = items(st.trailing_metadata)
+        rec['done'] = True
+    if not nested:
+        await seq_app(channel, calls, idxs, rr, k + 1)
+
+
+def run_seq(scn, only=None):
+    calls = scn['calls']
+    idxs = [only] if only is not None else list(range(len(calls)))
+    out = {'calls': {}, 'fresh': None, 'connects': None, 'rec': None, 'violations': 0, 'skipped': 0}
+    with vloop.session() as loop:
+        ce = wire.ClientEnd(loop)
+        recs = []
+        attach_recorder(ce, recs, 'C')
+        rr = {i: new_rec() for i in idxs}
+        task = loop.create_task(seq_app(ce.channel, calls, idxs, rr))
+        loop.run_quiet(TICK)
+        preq, seen = {}, {}
+
+        def absorb():
+            for ev in ce.peer.take_events():
+                if isinstance(ev, E.RequestReceived):
+                    tag = dict(ev.headers).get('x-call')
+                    seen[tag] = ev.stream_id
+                    preq[ev.stream_id] = {'md': [[k, v] for k, v in ev.headers if k.startswith('x-')], 'data': b''}
+                elif isinstance(ev, E.DataReceived) and ev.stream_id in preq:
+                    preq[ev.stream_id]['data'] += ev.data
+        for i in idxs:
+            c = calls[i]
+            absorb()
+            sid = seen.get(c['tag'])
+            if sid is None:
+                break                                           # the application never got this far
+            if c['gap']:
+                loop.advance(c['gap'])                          # earlier calls' deadline timers fire in here
+            peer = ce.peer
+            for st in c['strand']:
+                try:
+                    if st[0] == 'f':
+                        fr = c['frames'][st[1]]
+                        if fr[0] == 'H':
+                            peer.h2.send_headers(sid, [tuple(x) for x in fr[1]], end_stream=fr[2])
+                        else:
+                            peer.h2.send_data(sid, bytes.fromhex(fr[1]), end_stream=fr[2])
+                    elif st[0] == 'rst':
+                        peer.h2.reset_stream(sid, error_code=st[1])
+                except Exception:
+                    out['skipped'] += 1
+                peer.flush()
+                loop.run_quiet(TICK)
+            loop.run_quiet(TICK)
+        loop.run_quiet(TICK)
+        loop.advance(30)
+        absorb()
+        for i in idxs:
+            r = rr[i]
+            if not r['done']:
+                r['exc'] = 'PENDING'
+            sid = seen.get(calls[i]['tag'])
+            out['calls'][i] = {'exc': r['exc'], 'im': r['im'], 'msgs': r['msgs'], 'tm': r['tm'],
+                               'peer_md': preq[sid]['md'] if sid in preq else None,
+                               'peer_data': preq[sid]['data'].hex() if sid in preq else None}
+        from grpclib.client import UnaryUnaryMethod
+        m = UnaryUnaryMethod(ce.channel, '/v.S/Fresh', bytes, bytes)
+        ft = loop.create_task(m(b'fresh', metadata=[('x-call', 'fresh')]))
+        loop.run_quiet(TICK)
+        fs = None
+        for ev in ce.peer.take_events():
+            if isinstance(ev, E.RequestReceived) and dict(ev.headers).get('x-call') == 'fresh':
+                fs = ev.stream_id
+        if fs is not None:
+            ce.peer.headers(fs, P.RESP_HEADERS, flush=False)
+            ce.peer.data(fs, P.grpc_frame(b'fresh-reply'), flush=False)
+            ce.peer.headers(fs, [('grpc-status', '0')], end_stream=True)
+        loop.run_quiet(TICK)
+        loop.advance(5)
+        o = vloop.outcome(ft)
+        out['fresh'] = 'ok' if o == ('ok', b'fresh-reply') else (exc_name(o[1]) if o[0] == 'exc' else o[0])
+        out['connects'] = ce.connects
+        out['violations'] = sum(len(c[2].violations) for c in ce.conns)
+        out['rec'] = recs[0] if recs else None
+    return out
+
+
 RUNNERS = {'client': run_client, 'server': run_server, 'link': run_link, 'slots': run_slots,
-           'shared': run_shared, 'upload': run_upload, 'sbulk': run_sbulk}
+           'shared': run_shared, 'upload': run_upload, 'sbulk': run_sbulk,
+           'seq': run_seq}
 
 
 # ---- expectations: "each receives exactly its own metadata, messages and status" ---------------------
@@ -1641,7 +1796,7 @@ def check_scenario(ctx, res, scn, pending):
         solo = run_(scn, only=i)
         a, b = public(mux['calls'][i]), public(solo['calls'][i])
         struck = bool(c['strike'])
-        if a != b and not (struck and end in ('slots', 'upload', 'sbulk')):
+        if a != b and not (struck and end in ('slots', 'upload', 'sbulk', 'seq')):
             # (slots: a struck call may be struck while it still waits for its slot, which it never does
             #  alone; the property speaks about the calls nobody struck)
             fail('call %d (%s, strike=%s) differs from the same call executed alone' %
@@ -1652,9 +1807,9 @@ def check_scenario(ctx, res, scn, pending):
         if not struck:
             got = mux['calls'][i]
             bad = []
-            if end in ('client', 'link', 'slots', 'shared', 'upload'):
+            if end in ('client', 'link', 'slots', 'shared', 'upload', 'seq'):
                 bad += expect_client_side(c, got)
-            if end in ('client', 'slots', 'upload'):
+            if end in ('client', 'slots', 'upload', 'seq'):
                 want = b''.join(P.grpc_frame(bytes.fromhex(m)) for m in c['req']).hex()
                 if got['peer_data'] != want or got['peer_md'] != c['md']:
                     bad.append('request as seen by the peer')
@@ -1689,7 +1844,7 @@ def check_scenario(ctx, res, scn, pending):
     # ---- correspondence: the recorded inputs through the model
     if mux.get('stuck'):
         res.count('slots:server could not go on (calls %s blocked)' % (len(mux['stuck']),))
-    sides = {'client': ['C'], 'server': ['S'], 'link': ['C', 'S'], 'slots': ['C'], 'shared': ['C', 'S'], 'upload': ['C'], 'sbulk': ['S']}[end]
+    sides = {'client': ['C'], 'server': ['S'], 'link': ['C', 'S'], 'slots': ['C'], 'shared': ['C', 'S'], 'upload': ['C'], 'sbulk': ['S'], 'seq': ['C']}[end]
     for r, side in zip(recs, sides):
         if r.blind:
             res.count('unobservable:connection (no correspondence): %s' % getattr(r, 'blind_reason', '?')[:60])
@@ -1720,7 +1875,8 @@ def settle(ctx, res, pending):
 
 
 GENS = {'client': gen_client, 'server': gen_server, 'link': gen_link, 'spurious': gen_spurious,
-        'slots': gen_slots, 'shared': gen_shared, 'upload': gen_upload, 'sbulk': gen_sbulk}
+        'slots': gen_slots, 'shared': gen_shared, 'upload': gen_upload, 'sbulk': gen_sbulk,
+        'seq': gen_seq}
 
 
 def run(ctx):
@@ -1746,7 +1902,10 @@ def _run(ctx):
                 'give back; upload: one call fills the peer\'s 65535-byte connection window with a request nobody reads '
                 'and is struck, bystanders need the connection-level credit it gives back (optionally all started on a '
                 'paused transport); sbulk: 3..8 server calls receive a burst of padded DATA in one read and fail after '
-                'the first message, then a victim must upload 12..30 KB through the same connection window; shared: 2..5 concurrent calls created from ONE metadata object (dict / list of pairs / '
+                'the first message, then a victim must upload 12..30 KB through the same connection window; seq: ONE '
+                'application task makes 2..4 calls one after the other, earlier ones fail (RST_STREAM / malformed) with '
+                'their deadline timer still armed, the failure is handled inside the async-with, the timer fires while a '
+                'later call is pending; shared: 2..5 concurrent calls created from ONE metadata object (dict / list of pairs / '
                 'MultiDict / CIMultiDict), with SendRequest / SendInitialMetadata / SendTrailingMetadata listeners that '
                 'write a per-call id into event.metadata and await before returning (bursts of unread, partly padded DATA in the same read as the RST_STREAM / before the '
                 'cancel). Every call is re-run alone on a fresh connection. spurious: a sender blocked on an '
@@ -1760,7 +1919,7 @@ def _run(ctx):
         res.count('corpus')
     n = ctx.n(400, 6000)
     for end, share in (('client', 1.0), ('server', 1.0), ('link', 0.5), ('slots', 0.5), ('shared', 0.25), ('upload', 0.3),
-                       ('sbulk', 0.15)):
+                       ('sbulk', 0.15), ('seq', 0.3)):
         for _ in range(int(n * share)):
             check_scenario(ctx, res, GENS[end](rng), pending)
     for _ in range(n // 2):
